@@ -36,21 +36,31 @@ type jresp struct {
 }
 
 type jcase struct {
-	o       *rec
-	idx     int
-	db      *metadata.DBV2
-	h       *metadata.Handler
-	cl      *tlmetadata.Client
-	clients []*jclient
-	clock   *int64
-	jops    []string // Coq terms
-	texts   []string
-	obs     []string
-	tags    map[string]bool
-	sh      *shadow
+	o          *rec
+	idx        int
+	db         *metadata.DBV2
+	h          *metadata.Handler
+	cl         *tlmetadata.Client
+	clients    []*jclient
+	clock      *int64
+	jops       []string // Coq terms
+	texts      []string
+	obs        []string
+	tags       map[string]bool
+	sh         *shadow
+	live       []livePage
+	liveFailed bool
+}
+
+// hold reads the journal directly and keeps the page alive; check re-reads every kept page
+func (j *jcase) hold(since int64) {
+	if evs, err := j.db.JournalEvents(ctx, since, 1000); err == nil && len(evs) > 0 {
+		j.live = append(j.live, livePage{evs, fmt.Sprint(evs), fmt.Sprintf("J(%d,1000)", since)})
+	}
 }
 
 func (j *jcase) step(term, text, ob string) {
+	checkLive(j.o, j.live, j.idx, text, &j.liveFailed)
 	j.jops = append(j.jops, term)
 	j.texts = append(j.texts, text)
 	j.obs = append(j.obs, ob)
@@ -212,6 +222,9 @@ func (j *jcase) edit(x *op, viaRPC bool) {
 		text = "rpc" + text
 	}
 	j.step("JEdit ("+x.coq()+")", text, fmt.Sprintf("JOb (XSave 0 %s %s %s)", vu.Z(ev.Id), vu.Z(ev.Version), vu.Z(ev.NamespaceId)))
+	if len(j.live) < 3 {
+		j.hold(0) // a reader that has fetched a page and not consumed it yet
+	}
 	if viaRPC {
 		j.tags["rpc_edit"] = true
 		j.afterBroadcast("JBroadcast", "broadcast(after rpc edit)")
@@ -235,8 +248,13 @@ func (j *jcase) genEdit(r *vu.Rng, now int64) *op {
 	return x
 }
 
-func runJournalCase(r *vu.Rng, root string, idx int, seed uint64) *rec {
-	o := &rec{}
+func runJournalCase(r *vu.Rng, root string, idx int, seed uint64) (o *rec) {
+	o = &rec{}
+	defer func() {
+		if x := recover(); x != nil {
+			aborted(o, idx, seed, x)
+		}
+	}()
 	c := config{max: 3, step: 60, bonus: 1, global: 0}
 	dir := fmt.Sprintf("%s/j%d", root, idx)
 	if err := os.MkdirAll(dir, 0o755); err != nil {
